@@ -1,5 +1,6 @@
 SPECIFICATION Spec
 CONSTANT FixF1 = TRUE
+CONSTANT FixF18 = TRUE
 CONSTANT Family = "all"
 CONSTANT Depth = 6
 INVARIANT Emit
